@@ -1,28 +1,44 @@
 #!/bin/bash
 # cross.sh [refdir] — development experiment: every seeded mutant applied ON TOP of every behaviour-preserving
 # refactoring (where the patch still applies) must still be caught by its property's check.
+# CROSS_SAMEFILE=1 restricts the product to (refactoring, mutant) pairs whose patches touch a common file
+# (the pairs that can interact); results are appended per refactoring to $CROSS_OUT (default /tmp/gfcross_parts).
 HERE="$(cd "$(dirname "${BASH_SOURCE[0]}")" && pwd)"
 REFS="${1:-$HERE/refactorings}"
+export CROSS_OUT="${CROSS_OUT:-/tmp/gfcross_parts}"; mkdir -p "$CROSS_OUT"
+export CROSS_SAMEFILE="${CROSS_SAMEFILE:-0}"
 export GOPROXY=off GOSUMDB=off GOTOOLCHAIN=local GOFLAGS=-mod=mod; unset GOWORK
 one() {
   R="$1"; HERE="$2"
+  tag="$(basename $(dirname $R))_$(basename $R)"
   W=$(mktemp -d /tmp/gfcross.XXXXXX); mkdir -p $W/repo
   # a private build cache per worker, removed with it: tens of thousands of variant builds must not fill the shared cache
   export GOCACHE=$W/gocache
   (cd /repo && git ls-files -z | xargs -0 cp --parents -t $W/repo)
   cd $W/repo && git init -q . && git apply --whitespace=nowarn $R/patch.diff 2>/dev/null || { rm -rf $W; return; }
   git add -A >/dev/null 2>&1; git -c user.email=a@b -c user.name=x commit -qm r >/dev/null 2>&1
+  rfiles=$(grep '^+++ b/' $R/patch.diff | sed 's/^+++ b\///' | sort -u)
+  : > $W/res.txt
   for M in $HERE/seeded/*/; do
     id=$(basename $M); p=${id%%-*}
+    if [ "$CROSS_SAMEFILE" = 1 ]; then
+      share=0
+      for f in $(grep '^+++ b/' $M/patch.diff | sed 's/^+++ b\///' | sort -u); do
+        case " $(echo $rfiles | tr '\n' ' ') " in *" $f "*) share=1;; esac
+      done
+      [ $share = 1 ] || continue
+    fi
     git apply --whitespace=nowarn $M/patch.diff 2>/dev/null || continue
     if go build ./... >/dev/null 2>&1; then
       out=$($HERE/bin/gfcheck -prop $p -tier quick -repo $W/repo -out $W/out -known $HERE/known_findings.json -controls $HERE/checker/testdata/controls 2>&1 | grep -E "^$p quick:")
-      if echo "$out" | grep -q "violated=0 undecided=0 fatal=0"; then echo "MISSED $(basename $R) + $id"; else echo "caught $(basename $R) + $id"; fi
+      if echo "$out" | grep -q "violated=0 undecided=0 fatal=0"; then echo "MISSED $tag + $id" >> $W/res.txt; else echo "caught $tag + $id" >> $W/res.txt; fi
     fi
     git checkout -q -- . ; git clean -qfd
   done
+  cp $W/res.txt $CROSS_OUT/$tag.txt
   rm -rf $W
 }
 export -f one
-ls -d $REFS/*/ | xargs -P 8 -I{} bash -c 'one {} '"$HERE" | sort > /tmp/gfcross.txt
+ls -d $REFS/*/ | sed 's/\/$//' | xargs -P ${CROSS_WORKERS:-8} -I{} bash -c 'one {} '"$HERE"
+cat $CROSS_OUT/$(basename $REFS)_*.txt 2>/dev/null | sort > /tmp/gfcross.txt
 grep -c caught /tmp/gfcross.txt | sed 's/^/caught: /'; grep MISSED /tmp/gfcross.txt
